@@ -86,3 +86,61 @@ theorem values_option_independent (o₁ o₂ : VOpts) (fs₁ fs₂ : PStmt) (lev
   rw [values_nodeJ o₁ fs₁ level fuel₁ n c p₁ q₁ h₁, values_nodeJ o₂ fs₂ level fuel₂ n c p₂ q₂ h₂]
 
 end IGVerif.Vis
+
+namespace IGVerif.Vis
+open IGVerif IGVerif.Json
+
+theorem toList_append : (a b : JList) → (a.append b).toList = a.toList ++ b.toList
+  | .nil, b => by simp [JList.append, JList.toList]
+  | .cons x s rest, b => by simp [JList.append, JList.toList, toList_append rest b]
+
+theorem toList_withLastSep (sep : Str) : (l : JList) → (l.withLastSep sep).toList = l.toList
+  | .nil => by simp [JList.withLastSep]
+  | .cons x s .nil => by simp [JList.withLastSep, JList.toList]
+  | .cons x s (.cons y t rest) => by
+    simp only [JList.withLastSep, JList.toList]
+    rw [toList_withLastSep sep (.cons y t rest)]
+    simp [JList.toList]
+
+theorem toList_fragments2 (sep : Str) (a b : JList) : (jlistOfFragments sep [a, b]).toList = a.toList ++ b.toList := by
+  simp [jlistOfFragments, toList_append, toList_withLastSep]
+
+/-- in binary mode every node is printed as at most one object (nothing is spliced) -/
+theorem bin_fragment_single (o : VOpts) (hb : o.bin = true) (fs : PStmt) (level : Nat) :
+    ∀ (fuel : Nat) (n : PNode) (c : Ctx) (pop : Option Str) (pcomp : Str),
+      (nodeJ o fuel fs level c pop pcomp n).toList.length ≤ 1 := by
+  intro fuel
+  cases fuel with
+  | zero => intro n c pop pcomp; simp [nodeJ, JList.toList]
+  | succ f =>
+    intro n c pop pcomp
+    cases n with
+    | empty => simp [nodeJ, JList.toList]
+    | leaf => simp [nodeJ, JList.single, JList.toList]
+    | comb op sl sr m priv l r => simp [nodeJ, hb, JList.single, JList.toList]
+    | stmt => simp [nodeJ, JList.single, JList.toList]
+    | pairs m ns =>
+      cases ns with
+      | nil => simp [nodeJ, JList.toList]
+      | cons x rest => cases x <;> simp [nodeJ, JList.single, JList.toList]
+
+/-- **Binary mode: every operator is printed as one object of its own whose children are the
+    printed operands — at most two, exactly two when both operands are printed** -/
+theorem bin_operator_children (o : VOpts) (hb : o.bin = true) (fs : PStmt) (level : Nat) (f : Nat)
+    (op : Str) (sl sr : List Str) (m : Meta) (priv : List PNode) (l r : PNode) (c : Ctx) (pop : Option Str) (pcomp : Str) :
+    let lf := nodeJ o f fs level (childCtx c op sl sr m) (some op) (effComp c m) l
+    let rf := nodeJ o f fs level (childCtx c op sl sr m) (some op) (effComp c m) r
+    let ch := jlistOfFragments (str ",\n") [lf, rf]
+    nodeJ o (f + 1) fs level c pop pcomp (.comb op sl sr m priv l r) =
+      JList.single (.comb op ch (effComp c m) level (propsJ o f fs level (effComp c m) false priv) (optAnn o (effAnn c m.ann))
+        (if o.dov then (Dov.node Dov.defaultFuel (.comb op sl sr m priv l r)).map intStr else none)) ∧
+    ch.toList.length = lf.toList.length + rf.toList.length ∧ ch.toList.length ≤ 2 := by
+  refine ⟨?_, ?_, ?_⟩
+  · simp only [nodeJ, hb, Bool.not_true, Bool.false_and, Bool.false_eq_true, if_false]
+  · rw [toList_fragments2, List.length_append]
+  · rw [toList_fragments2, List.length_append]
+    have h1 := bin_fragment_single o hb fs level f l (childCtx c op sl sr m) (some op) (effComp c m)
+    have h2 := bin_fragment_single o hb fs level f r (childCtx c op sl sr m) (some op) (effComp c m)
+    omega
+
+end IGVerif.Vis
